@@ -112,6 +112,18 @@ def first_diff(a, b, chains):
 
 def stream_replays(rec):
     seen = {}
+    # every momentum draw of the run (initial states, momentum transitions, adapters): the generator
+    # state it started from must not have been the start of an earlier draw
+    first = {}
+    for k, (dg, consumed, task, in_chain) in enumerate(rec.log.mom_draws):
+        if not consumed:
+            continue
+        if dg in first:
+            j = first[dg]
+            where = lambda t: "inside a chain" if t[3] else "outside the chain loop (initial state / adapter)"  # noqa: E731
+            return (f"momentum draw #{k} ({where(rec.log.mom_draws[k])}, task {task}) started from the generator state that momentum draw #{j} "
+                    f"({where(rec.log.mom_draws[j])}, task {rec.log.mom_draws[j][2]}) had already started from")
+        first[dg] = k
     # generator states from which metric adapters drew the refreshed momenta
     for a in rec.log.adapter:
         if a["ev"] == "finalize" and a.get("rng_before"):
@@ -148,6 +160,7 @@ def _run(scn, stats, keys):
     rec = chainsim.run_scenario_raw(scn)
     stats["runs"] += 1
     stats["transition_calls"] += len(rec.log.entries)
+    stats["momentum_draws_observed"] = stats.get("momentum_draws_observed", 0) + sum(1 for d in rec.log.mom_draws if d[1])
     if rec.sim is not None:
         stats["parallel_runs"] += 1
         stats["sched_steps"] += rec.sim.steps
